@@ -85,7 +85,9 @@ def safe_readable(handle):
     """Attempts to find if the handle is readable without throwing an error."""
     try:
         status = handle.readable()
-    except (OSError, ValueError):
+    except (OSError, ValueError, AttributeError):
+        # AttributeError: a raw fd or a subprocess.STDOUT/PIPE flag, which a
+        # callable alias keeps as its stdout/stderr for `e>o` / `o>e`
         status = False
     return status
 
